@@ -1,0 +1,114 @@
+//! Read-only inspection hooks for the external verification harness.
+//! Compiled only with `--cfg samlang_verif`; nothing here changes behaviour.
+
+use super::{Heap, ModuleReference, PStr, StringStoredInHeap};
+
+#[derive(Debug, Clone, PartialEq, Eq, PartialOrd, Ord, Hash)]
+pub enum VerifSlot {
+  Permanent(String),
+  Temporary(String, bool),
+  Deallocated,
+}
+
+#[derive(Debug, Clone, PartialEq, Eq, PartialOrd, Ord, Hash)]
+pub struct VerifHeapSnapshot {
+  pub slots: Vec<VerifSlot>,
+  pub sweep_index: usize,
+  /// sorted raw indices of the module references still waiting to be marked
+  pub unmarked_module_references: Vec<usize>,
+  /// sorted (string, slot id) of the temporary-generation intern table
+  pub interned_string: Vec<(String, u32)>,
+  /// sorted (string, slot id) of the permanent-generation intern table
+  pub interned_static_str: Vec<(String, u32)>,
+  /// slot ids of intern-table entries whose key does not point at the live string of that slot
+  pub inconsistent_interned_keys: Vec<u32>,
+  /// module reference table: parts of every module reference, as raw handles
+  pub module_references: Vec<Vec<u128>>,
+}
+
+impl PStr {
+  /// The raw 128-bit representation equality/hash are defined on.
+  pub fn verif_raw(&self) -> u128 {
+    unsafe { self.0.heap_id }
+  }
+
+  /// `Some(slot id)` when this handle points into the string table.
+  pub fn verif_heap_id(&self) -> Option<u32> {
+    self.0.as_heap_id()
+  }
+}
+
+impl ModuleReference {
+  pub fn verif_index(&self) -> usize {
+    self.0
+  }
+}
+
+impl Heap {
+  pub fn verif_snapshot(&self) -> VerifHeapSnapshot {
+    let slots = self
+      .str_pointer_table
+      .iter()
+      .map(|s| match s {
+        StringStoredInHeap::Permanent(s) => VerifSlot::Permanent(s.to_string()),
+        StringStoredInHeap::Temporary(s, marked) => VerifSlot::Temporary(s.clone(), *marked),
+        StringStoredInHeap::Deallocated(_) => VerifSlot::Deallocated,
+      })
+      .collect();
+    let mut unmarked: Vec<usize> = self.unmarked_module_references.iter().map(|m| m.0).collect();
+    unmarked.sort();
+    // Keys of `interned_string` are raw pointers into the slot table. A key is only
+    // dereferenced here when it provably points at the live string of the slot it maps to;
+    // otherwise it is reported as inconsistent (by slot id) without touching its memory.
+    let mut interned_string: Vec<(String, u32)> = Vec::new();
+    let mut inconsistent_interned_keys: Vec<u32> = Vec::new();
+    for (k, id) in self.interned_string.iter() {
+      match self.str_pointer_table.get(*id as usize) {
+        Some(StringStoredInHeap::Temporary(s, _))
+          if s.as_ptr() == k.as_ptr() && s.len() == k.len() =>
+        {
+          interned_string.push((s.clone(), *id));
+        }
+        _ => inconsistent_interned_keys.push(*id),
+      }
+    }
+    interned_string.sort();
+    let mut interned_static_str: Vec<(String, u32)> = Vec::new();
+    for (k, id) in self.interned_static_str.iter() {
+      match self.str_pointer_table.get(*id as usize) {
+        Some(StringStoredInHeap::Permanent(s)) if s.as_ptr() == k.as_ptr() && s.len() == k.len() => {
+          interned_static_str.push((s.to_string(), *id));
+        }
+        _ => inconsistent_interned_keys.push(*id),
+      }
+    }
+    interned_static_str.sort();
+    inconsistent_interned_keys.sort();
+    let module_references = self
+      .module_reference_pointer_table
+      .iter()
+      .map(|parts| parts.iter().map(|p| p.verif_raw()).collect())
+      .collect();
+    VerifHeapSnapshot {
+      slots,
+      sweep_index: self.sweep_index,
+      unmarked_module_references: unmarked,
+      interned_string,
+      interned_static_str,
+      inconsistent_interned_keys,
+      module_references,
+    }
+  }
+
+  /// Whether a handle can be read without panicking (slot not deallocated).
+  pub fn verif_is_readable(&self, p: PStr) -> bool {
+    match p.0.as_heap_id() {
+      None => true,
+      Some(id) => match self.str_pointer_table.get(id as usize) {
+        None => false,
+        Some(StringStoredInHeap::Deallocated(_)) => false,
+        Some(_) => true,
+      },
+    }
+  }
+}
